@@ -152,7 +152,7 @@ package proxy
 //@   trusted constructor: stores its arguments in a fresh StreamForwarder (no effect on the caller's state)
 //@ extern quiet (*StreamForwarder).Run
 //@ extern quiet streamIntraProxyRouting
-//@ extern quiet streamRouting
+//@ extern quiet streamRouting@handleStream
 //@ extern pure common.IsIntraProxy
 
 // LCM branch: whenever the forwarder is created, the outgoing stream metadata names the incoming LCM shard s
@@ -601,7 +601,10 @@ package proxy
 // C08: watermark replay to a late target must not be able to crash the process: the channel it finds in the
 // registry may belong to an incarnation that has already closed it (implicit obligation chan:send-open).
 // ---------------------------------------------------------------------------------------------
-//@ extern quiet channel.NewShutdownOnce
+//@ extern channel.NewShutdownOnce()
+//@   trusted go.temporal.io/server/common/channel: returns a new, untripped latch
+//@   ensures result != nil
+//@   assigns nothing
 //@ extern (ShardManager).GetRemoteSendChan@(*proxyStreamReceiver).sendPendingWatermarkToShard
 //@   trusted registry read; the channel may already be closed by its owner
 //@   assigns nothing
@@ -642,7 +645,6 @@ package proxy
 //@   ensures c.tripped
 //@   assigns c.tripped
 //@ extern quiet BuildSenderStreamID
-//@ extern quiet channel.NewShutdownOnce
 //@ extern quiet context.AfterFunc
 //@ extern quiet BuildReceiverStreamID
 //@ extern quiet GetGlobalStreamTracker
@@ -650,7 +652,10 @@ package proxy
 //@   ensures result != nil
 //@   assigns nothing
 //@ extern quiet metadata.NewOutgoingContext
-//@ extern quiet (adminservice.AdminServiceClient).StreamWorkflowReplicationMessages
+//@ extern (adminservice.AdminServiceClient).StreamWorkflowReplicationMessages(c, ctx)
+//@   trusted generated gRPC client: a stream is returned exactly when the error is nil
+//@   ensures result1 == nil ==> result0 != nil
+//@   assigns nothing
 //@ extern quiet (grpc.ClientStream).CloseSend
 //@ extern quiet (ShardManager).SetLocalAckChan
 //@ extern quiet (ShardManager).SetLocalReceiverCancelFunc
@@ -762,3 +767,93 @@ package proxy
 //@ contract (*shardDelegate).MergeRemoteState
 //@   props C09
 //@   requires sd.manager != nil ==> sd.manager.remoteNodeStates != nil
+
+// ---------------------------------------------------------------------------------------------
+// C06: pass-through relay (default and LCM modes).
+// Ghost history: fwdMsgs / fwdAcks count the messages put on the initiator stream / the source stream.
+// ---------------------------------------------------------------------------------------------
+//@ ghost StreamForwarder.fwdMsgs int
+//@ ghost StreamForwarder.fwdAcks int
+//@ ghost StreamForwarder.cancelled bool
+//@ ghost sync.WaitGroup.dones int
+//@ extern (*sync.WaitGroup).Done(w)
+//@   ensures w.dones == old(w.dones) + 1
+//@   assigns w.dones
+// A-wire: what a gRPC stream hands to the relay was decoded from the wire: a set oneof branch has a payload and
+// repeated message fields have no nil elements (protobuf unmarshalling never produces either).
+//@ chanassume ValueWithError[adminservice.StreamWorkflowReplicationMessagesResponse] v: v.val != nil && msgsOf(v.val) != nil ==>
+//@      (forall k int :: { msgsOf(v.val).ReplicationTasks[k] } 0 <= k && k < len(msgsOf(v.val).ReplicationTasks) ==> msgsOf(v.val).ReplicationTasks[k] != nil)
+//@ chanassume ValueWithError[adminservice.StreamWorkflowReplicationMessagesResponse] v: v.val != nil && typeis(v.val.Attributes, "*adminservice.StreamWorkflowReplicationMessagesResponse_Messages") ==> msgsOf(v.val) != nil
+//@ chanassume ValueWithError[adminservice.StreamWorkflowReplicationMessagesRequest] v: v.val != nil && typeis(v.val.Attributes, "*adminservice.StreamWorkflowReplicationMessagesRequest_SyncReplicationState") ==>
+//@      cast(v.val.Attributes, "*adminservice.StreamWorkflowReplicationMessagesRequest_SyncReplicationState").SyncReplicationState != nil
+//@ extern (adminservice.AdminService_StreamWorkflowReplicationMessagesServer).Send@(*StreamForwarder).forwardReplicationMessages(stream, m)
+//@   trusted gRPC stream send towards the stream initiator
+//@   ensures f.fwdMsgs == old(f.fwdMsgs) + 1
+//@   assigns f.fwdMsgs
+//@ extern (adminservice.AdminService_StreamWorkflowReplicationMessagesClient).Send@(*StreamForwarder).forwardAcks(stream, m)
+//@   trusted gRPC stream send towards the source
+//@   ensures f.fwdAcks == old(f.fwdAcks) + 1
+//@   assigns f.fwdAcks
+//@ extern quiet (*StreamTracker).UpdateStreamReplicationMessages
+//@ extern quiet (*StreamTracker).UpdateStreamSyncReplicationState
+//@ extern quiet serviceerror.NewInternal
+//@ extern quiet strings.Join
+//@ extern quiet time.After
+//@ extern quiet (*timestamppb.Timestamp).AsTime
+
+// Source -> initiator. Every message taken from the source listener is put on the initiator stream, as the same
+// object, before the next one is taken (loop invariant over the ghost counters: nothing is skipped while the loop
+// keeps running); the frame shows the relay writes nothing but its own counters, so the message is unmodified.
+// On EVERY exit path - EOF, error, send failure, unknown message kind, shutdown - the latch is tripped and the
+// wait group is released exactly once.
+//@ contract (*StreamForwarder).forwardReplicationMessages
+//@   props C06
+//@   requires f.shutdownChan != nil && f.sourceStreamClient != nil && f.targetStreamServer != nil && wg != nil
+//@   callpre Send: @same_message: $0 == resp && resp != nil && typeis(resp.Attributes, "*adminservice.StreamWorkflowReplicationMessagesResponse_Messages")
+//@   loop 1 invariant @nothing_skipped: f.fwdMsgs == old(f.fwdMsgs) + $recvs
+//@   loop 2 invariant fresh(msg)
+//@   ensures @latch_tripped: f.shutdownChan.tripped
+//@   ensures @released_once: wg.dones == old(wg.dones) + 1
+// (append(f.metricLabelValues, ...) may write the spare capacity of the label slice: elems(...) in the frame)
+//@   assigns f.fwdMsgs, f.shutdownChan.tripped, wg.dones, elems(f.metricLabelValues)
+
+// Initiator -> source: the same for sync-state messages.
+//@ contract (*StreamForwarder).forwardAcks
+//@   props C06
+//@   requires f.shutdownChan != nil && f.sourceStreamClient != nil && f.targetStreamServer != nil && wg != nil
+//@   callpre Send: @same_message: $0 == req && req != nil && typeis(req.Attributes, "*adminservice.StreamWorkflowReplicationMessagesRequest_SyncReplicationState")
+//@   loop 1 invariant @nothing_skipped: f.fwdAcks == old(f.fwdAcks) + $recvs
+//@   ensures @latch_tripped: f.shutdownChan.tripped
+//@   ensures @released_once: wg.dones == old(wg.dones) + 1
+//@   assigns f.fwdAcks, f.shutdownChan.tripped, wg.dones, elems(f.metricLabelValues)
+
+// The handler: the outgoing context is cancelled on every exit path once it exists (which releases a listener
+// blocked in the source stream's Recv), both relay directions are started with their preconditions established
+// (spawn obligations), and the handler returns only after the join.
+//@ extern $cancel@(*StreamForwarder).Run
+//@   ensures f.cancelled
+//@   assigns f.cancelled
+//@ extern quiet (adminservice.AdminService_StreamWorkflowReplicationMessagesServer).Context
+//@ extern quiet (*prometheus.CounterVec).WithLabelValues
+//@ extern quiet (*prometheus.HistogramVec).WithLabelValues
+//@ extern quiet (prometheus.Counter).Inc
+//@ extern quiet (prometheus.Observer).Observe
+//@ contract (*StreamForwarder).Run
+//@   props C06
+//@   checkgo
+//@   requires f.adminClient != nil && f.targetStreamServer != nil
+//@   ensures @outgoing_context_cancelled: f.cancelled
+
+// The listener goroutine: closes its channel on exit, so a relay loop blocked on it wakes up.
+//@ extern (recvable).Recv(r)
+//@   trusted gRPC stream receive: no effect on the proxy's own state
+//@   assigns nothing
+//@ contract startListener
+//@   props C06
+//@   requires shutdownChan != nil && receiver != nil
+//@   ensures result != nil
+//@   assigns nothing
+//@ contract startListener$1
+//@   props C06
+//@   requires shutdownChan != nil && receiver != nil && open(targetStreamServerData)
+//@   ensures @closed: !open(targetStreamServerData)
